@@ -8,7 +8,10 @@
     (kdumpfile-priv.h).  The modelled source is the pinned tree with the
     repairs #8 (EOF clamp of an mmap'ed entry's length; the unrepaired code
     is [clamp_eof = false]), #41 ([free(data)] when a get fails after the
-    copy-out) and #72 (off_t guard at the top of [fcache_get_chunk]).
+    copy-out), #72 (off_t guard at the top of [fcache_get_chunk]) and #47
+    ([fcache_get_mmap] gives the reference on a MAP_FAILED entry back before
+    it returns ERR_SYSTEM; the entry stays cached, unreferenced, and answers
+    ERR_SYSTEM again until the replacement drops it).
 
     Modelled, not verified (the environment):
     - [pread(fd, buf, pgsz, blkpos)] returns [min pgsz (filesz - blkpos)]
@@ -303,11 +306,12 @@ Section Fcache.
     match store_get blkpos ev (st_mm st0) with
     | Busy => (GErr ERR_BUSY, st0)
     | Hit MapOk mm' => found (set_mm st0 mm')
-    | Hit MapFailed mm' => (GErr ERR_SYSTEM, set_mm st0 mm')    (* reference not dropped *)
+    | Hit MapFailed mm' =>                       (* cache_put_entry, then ERR_SYSTEM (repair 47) *)
+      (GErr ERR_SYSTEM, set_mm st0 (store_put blkpos mm'))
     | Miss mm' =>
       let '(failed, st1) := pop_mf st0 in
       if failed
-      then (GErr ERR_SYSTEM, set_mm st1 (store_insert blkpos MapFailed mm'))
+      then (GErr ERR_SYSTEM, set_mm st1 (store_put blkpos (store_insert blkpos MapFailed mm')))
       else found (set_mm st1 (store_insert blkpos MapOk mm'))
     end.
 
